@@ -120,10 +120,15 @@ type pageScript struct {
 	cumEnd   []int        // cumEnd[p] = rows in pages 0..p
 
 	// re-execution of the kept *gocql.Query value (non-manual queries only)
-	reexec    bool
-	consumer2 int
-	abandonAt int // >0: the first iteration stops after this many rows, just behind a page switch
-	faultGen  int // which execution the injected failure hits
+	reexec bool
+	// releaseEarly: the caller hands the Query back to the driver's pool right after Iter()
+	// and takes another Query (other statement, other value) from it while the iteration
+	// goes on. speculative: the query is idempotent and has a speculative execution policy
+	// (whose delay never expires here), so that it runs under the executor's own context.
+	releaseEarly, speculative bool
+	consumer2                 int
+	abandonAt                 int // >0: the first iteration stops after this many rows, just behind a page switch
+	faultGen                  int // which execution the injected failure hits
 
 	// guarded by pageRun.mu: written by the tasks, read by the root goroutine
 	seen   int
@@ -173,6 +178,7 @@ type pageRun struct {
 	e       *Env
 	faults  bool
 	timeout time.Duration
+	sess    *gocql.Session
 
 	scripts map[string]*pageScript
 	byState map[string]pageStateRef
@@ -338,6 +344,14 @@ func (pr *pageRun) drawScript(tp *kernel.Tape, ti, oi, qid, proto int) *pageScri
 		if s.consumer != pageConsSliceMap && len(behind) > 0 && tp.Chance(1, 2) {
 			s.abandonAt = behind[tp.Next(len(behind))]
 		}
+	}
+	if !s.reexec && !s.manual && tp.Chance(1, 5) {
+		s.releaseEarly = true
+		pr.k.Fault("page.query-released-early")
+	}
+	if tp.Chance(1, 5) {
+		s.speculative = true
+		pr.k.Fault("page.idempotent-with-speculative-policy")
 	}
 	pr.scripts[s.token] = s
 	pr.newExec(s)
@@ -794,6 +808,9 @@ func (pr *pageRun) buildQuery(sess *gocql.Session, s *pageScript) *gocql.Query {
 		}
 		q.PageState(st)
 	}
+	if s.speculative {
+		q.Idempotent(true).SetSpeculativeExecutionPolicy(&gocql.SimpleSpeculativeExecution{NumAttempts: 1, TimeoutDelay: time.Hour})
+	}
 	return q
 }
 
@@ -846,6 +863,10 @@ func (pr *pageRun) iterate(t *kernel.Task, s *pageScript, g *pageExec, q *gocql.
 	}
 	pr.setInCall(s, true)
 	iter := q.Iter()
+	if s.releaseEarly {
+		q.Release()
+		_ = pr.sess.Query("SELECT v FROM ks.decoy WHERE k = ?", "decoy-"+s.token)
+	}
 	pr.setInCall(s, false)
 	k.Rec("iter %s x%d returned numrows=%d", s.token, g.idx+1, iter.NumRows())
 
@@ -1161,6 +1182,7 @@ func runPage(e *Env) {
 		cl.CloseAll()
 		return
 	}
+	pr.sess = sess
 
 	// the pool opens its remaining connections in the background: let it finish first
 	k.SettleUntil(2*time.Second, time.Millisecond, func() { cl.Process(); cl.DeliverAll() }, func() bool {
